@@ -5,7 +5,9 @@
 #include "vf/base.hpp"
 #include "vf/ledger.hpp"
 
+#include <cmath>
 #include <cstddef>
+#include <limits>
 #include <memory>
 #include <string>
 #include <type_traits>
@@ -321,11 +323,24 @@ struct Codec<bool>
     static int64_t moved(int64_t v) { return v; }
 };
 
+constexpr int64_t CODE_NEG_ZERO = (int64_t{1} << 40) + 1;  // -0.0: equal to +0.0 but different bytes
+constexpr int64_t CODE_NAN = (int64_t{1} << 40) + 2;       // NaN: unequal to itself but equal bytes
+
 template <class T>
 struct Codec<T, std::enable_if_t<std::is_floating_point_v<T>>>
 {
-    static T make(int64_t v) { return static_cast<T>(v % (1 << 20)); }
-    static int64_t read(const T& x) { return static_cast<int64_t>(x); }
+    static T make(int64_t v)
+    {
+        if (v == CODE_NEG_ZERO) return static_cast<T>(-0.0);
+        if (v == CODE_NAN) return std::numeric_limits<T>::quiet_NaN();
+        return static_cast<T>(v % (1 << 20));
+    }
+    static int64_t read(const T& x)
+    {
+        if (x != x) return CODE_NAN;
+        if (x == 0 && std::signbit(x)) return CODE_NEG_ZERO;
+        return static_cast<int64_t>(x);
+    }
     static int64_t moved(int64_t v) { return v; }
 };
 
